@@ -169,6 +169,46 @@ def sim_sleep(seconds):
 _real_sleep = time.sleep
 
 
+_orig_thread_start = threading.Thread.start
+_orig_thread_join = threading.Thread.join
+_orig_thread_is_alive = threading.Thread.is_alive
+
+
+def _thread_start(self):
+    """threading.Thread.start: a thread that the package starts from a simulated thread while a simulation is running becomes
+    a simulated thread itself (the scheduler decides when it runs). Anywhere else the thread starts for real - and from then on
+    the harness no longer assumes it is alone in the process."""
+    global SINGLE_THREADED
+    s = _ACTIVE
+    if s is not None and not s.finished and _thread.get_ident() in s.by_ident:
+        s.adopt(self)
+        return None
+    SINGLE_THREADED = False
+    return _orig_thread_start(self)
+
+
+def _thread_join(self, timeout=None):
+    t = getattr(self, "_sim_thread", None)
+    if t is None:
+        return _orig_thread_join(self, timeout)
+    s = _ACTIVE
+    cur = s.by_ident.get(_thread.get_ident()) if s is not None else None
+    n = 0
+    while t.state != DONE and cur is not None and not s.finished:
+        s.yield_point(cur, 4, 7004, 0)          # like a sleep: lets others (the joined thread) run
+        n += 1
+        if timeout is not None and n > 200:
+            break
+    return None
+
+
+def _thread_is_alive(self):
+    t = getattr(self, "_sim_thread", None)
+    if t is None:
+        return _orig_thread_is_alive(self)
+    return t.state != DONE
+
+
 def install_locks():
     """Must run before `pyab_experiment` is imported (covers `from threading import Lock` too).
     threading.Condition / Event / Semaphore build on these names, so they become simulator-aware as well."""
@@ -176,6 +216,9 @@ def install_locks():
     threading._allocate_lock = SimLock
     threading.RLock = SimRLock
     time.sleep = sim_sleep
+    threading.Thread.start = _thread_start
+    threading.Thread.join = _thread_join
+    threading.Thread.is_alive = _thread_is_alive
 
 
 # ---------------------------------------------------------------------------
@@ -460,6 +503,10 @@ class PCTChooser:
         self.change = sorted(rng.randrange(1, max(2, est_steps)) for _ in range(d))
         self.low = -1
 
+    def on_adopt(self, t):
+        self.prio.append(self.low)        # a thread started later runs behind everybody until a change point says otherwise
+        self.low -= 1
+
     def _best(self, cand):
         return max(cand, key=lambda x: self.prio[x.idx])
 
@@ -529,7 +576,8 @@ class ReplayChooser:
 # scheduler
 # ---------------------------------------------------------------------------
 class SimThread:
-    __slots__ = ("idx", "gate", "state", "ycount", "body", "blocked_on", "error", "ident", "timed", "timed_out", "replay")
+    __slots__ = ("idx", "gate", "state", "ycount", "body", "blocked_on", "error", "ident", "timed", "timed_out", "replay", "daemon",
+                 "adopted")
 
     def __init__(self, idx, body):
         self.idx = idx
@@ -544,6 +592,8 @@ class SimThread:
         self.timed = False
         self.timed_out = False
         self.replay = None
+        self.daemon = False       # a thread the PACKAGE started (threading.Thread(daemon=True)): the run does not wait for it
+        self.adopted = None       # the threading.Thread object, for threads the package started during the simulation
 
 
 class Scheduler:
@@ -572,10 +622,60 @@ class Scheduler:
         self.next_at = [INF, INF, INF, INF, INF, INF, INF]
         self.last_code_h = 0
         self.foreign_points = 0
+        self.finished = False
+        self.adopted_count = 0
         self.fair_at = FAIRNESS_BOUND
 
     # -- called on the simulated threads ----------------------------------------
+    def adopt(self, thread_obj):
+        """A threading.Thread started by the package on a simulated thread: owned by the scheduler from now on."""
+        def body(sched, st, thread_obj=thread_obj):
+            try:
+                thread_obj.run()
+            except Abort:
+                raise
+            except Exception:  # noqa: BLE001 - an exception ends a real thread too (after printing); it is not a harness error
+                pass
+
+        t = SimThread(len(self.threads), body)
+        t.daemon = bool(thread_obj.daemon)
+        t.adopted = thread_obj
+        t.state = RUNNABLE
+        thread_obj._sim_thread = t
+        try:
+            thread_obj._started.set()
+        except Exception:  # noqa: BLE001
+            pass
+        self.threads.append(t)
+        self.adopted_count += 1
+        if hasattr(self.chooser, "on_adopt"):
+            self.chooser.on_adopt(t)
+        if self.is_replay:
+            t.replay = self.chooser.by_thread.get(t.idx, {})
+        _thread.start_new_thread(self._thread_main, (t,))
+        return t
+
+    def _all_foreground_done(self):
+        return all(x.state == DONE for x in self.threads if not x.daemon)
+
+    def _finish(self):
+        """All threads the workload started are done. Threads the package started as daemons are let go: they continue as
+        ordinary real threads (the scheduler steps aside), as they would when a program's main work is over."""
+        global SINGLE_THREADED
+        self.finished = True
+        alive = [x for x in self.threads if x.daemon and x.state != DONE]
+        if alive:
+            SINGLE_THREADED = False
+        self.main_gate.release()
+        for x in alive:
+            try:
+                x.gate.release()
+            except RuntimeError:
+                pass
+
     def yield_point(self, t, cls, code_h, pos):
+        if self.finished:
+            return
         if self.abort is not None:
             if t.state != DONE and self.current is t:
                 raise Abort(self.abort)
@@ -624,6 +724,8 @@ class Scheduler:
         self.current = to
         to.gate.release()
         t.gate.acquire()
+        if self.finished:
+            return
         if self.abort is not None:
             raise Abort(self.abort)
 
@@ -637,10 +739,20 @@ class Scheduler:
         t.blocked_on = lock
         t.timed = timed
         t.timed_out = False
+        if self.finished:
+            t.state = RUNNABLE
+            _real_sleep(0.001)            # the simulation is over: this is an ordinary thread now, polling a real lock
+            return True
         runnable = [x for x in self.threads if x.state == RUNNABLE]
         if not runnable:
             if not self._fire_timeout():
-                self.deadlock = {"blocked": [x.idx for x in self.threads if x.state == BLOCKED]}
+                if self._all_foreground_done():
+                    # only daemon threads of the package are left, all waiting: the run is over, not deadlocked
+                    t.state = RUNNABLE
+                    self._finish()
+                    t.gate.acquire()
+                    return True
+                self.deadlock = {"blocked": [x.idx for x in self.threads if x.state == BLOCKED and not x.daemon]}
                 self.abort = "deadlock"
                 t.state = RUNNABLE
                 raise Abort(self.abort)
@@ -700,6 +812,11 @@ class Scheduler:
                     return
             self.main_gate.release()
             return
+        if self.finished:
+            return
+        if self._all_foreground_done():
+            self._finish()
+            return
         runnable = [x for x in self.threads if x.state == RUNNABLE]
         if runnable:
             self.current = t
@@ -716,12 +833,12 @@ class Scheduler:
             to.gate.release()
             return
         if blocked:
-            self.deadlock = {"blocked": [x.idx for x in blocked]}
+            self.deadlock = {"blocked": [x.idx for x in blocked if not x.daemon]}
             self.abort = "deadlock"
             self.current = blocked[0]
             blocked[0].gate.release()
             return
-        self.main_gate.release()
+        self._finish()
 
     def _make_tracer(self, t):
         classify = self.fc.classify
